@@ -223,15 +223,56 @@ func setup() *mux.Router {
 // push sends one Loki JSON push with the given scripted outcomes and returns the status and the
 // INSERTs that reached the client because of it.
 func push(r *mux.Router, body string, tsOK, splOK bool) (int, []Call) {
+	return collect(tsOK, splOK, func() int {
+		req := httptest.NewRequest("POST", "/loki/api/v1/push", bytes.NewReader([]byte(body)))
+		req.Header.Set("Content-Type", "application/json")
+		w := httptest.NewRecorder()
+		r.ServeHTTP(w, req)
+		return w.Code
+	})
+}
+
+// an open request: its body is a pipe the harness writes to piece by piece
+type flight struct {
+	pw   *io.PipeWriter
+	code chan int
+}
+
+// begin starts a push whose body so far is the opening of the streams array and the given streams; returns once
+// the parser has consumed all of it (a second write is taken only when the decoder's buffer is exhausted, that is
+// after onEntries ran for every complete stream).
+func begin(r *mux.Router, st Step) *flight {
+	pr, pw := io.Pipe()
+	f := &flight{pw: pw, code: make(chan int, 1)}
+	req := httptest.NewRequest("POST", "/loki/api/v1/push", pr)
+	req.Header.Set("Content-Type", "application/json")
+	go func() {
+		w := httptest.NewRecorder()
+		r.ServeHTTP(w, req)
+		f.code <- w.Code
+	}()
+	full := bodyOf(st)
+	pw.Write([]byte(strings.TrimSuffix(full, "]}")))
+	pw.Write([]byte(" "))
+	return f
+}
+
+// finish closes the body properly (tail "]}") or continues it with bytes that are not JSON
+func (f *flight) finish(tail string, tsOK, splOK bool) (int, []Call) {
+	return collect(tsOK, splOK, func() int {
+		f.pw.Write([]byte(tail))
+		f.pw.Close()
+		return <-f.code
+	})
+}
+
+func collect(tsOK, splOK bool, do func() int) (int, []Call) {
 	be.mtx.Lock()
 	be.tsOK, be.splOK = tsOK, splOK
 	be.calls = nil
 	n0 := be.nSpl
 	be.mtx.Unlock()
-	req := httptest.NewRequest("POST", "/loki/api/v1/push", bytes.NewReader([]byte(body)))
-	req.Header.Set("Content-Type", "application/json")
-	w := httptest.NewRecorder()
-	r.ServeHTTP(w, req)
+	code := do()
 	// the handler returns at the first failed insert; the samples insert of the same request may
 	// still be on its way - wait for it so that it is attributed (and scripted) correctly
 	deadline := time.Now().Add(3 * time.Second)
@@ -239,7 +280,7 @@ func push(r *mux.Router, body string, tsOK, splOK bool) (int, []Call) {
 		be.mtx.Lock()
 		done := be.nSpl > n0
 		be.mtx.Unlock()
-		if done || w.Code == 400 || time.Now().After(deadline) {
+		if done || code == 400 || time.Now().After(deadline) {
 			break
 		}
 		time.Sleep(200 * time.Microsecond)
@@ -248,7 +289,7 @@ func push(r *mux.Router, body string, tsOK, splOK bool) (int, []Call) {
 	be.mtx.Lock()
 	calls := append([]Call(nil), be.calls...)
 	be.mtx.Unlock()
-	return w.Code, calls
+	return code, calls
 }
 
 // ------------------------------------------------------------------ histories
@@ -264,8 +305,12 @@ type Stream struct {
 	Entries []Entry `json:"entries"`
 }
 type Step struct {
-	K       string   `json:"k"` // push | reset
+	// push | reset | bad (push whose body is malformed after the streams) | begin (the streams arrive, the body stays
+	// open) | end (the Idx-th open request: the body is closed, the inserts get the scripted outcomes) | abort (the
+	// Idx-th open request: the body continues malformed)
+	K       string   `json:"k"`
 	Streams []Stream `json:"streams,omitempty"`
+	Idx     int      `json:"idx,omitempty"`
 	TsOK    bool     `json:"ts_ok"`
 	SplOK   bool     `json:"spl_ok"`
 	Retry   bool     `json:"retry,omitempty"` // same body as the previous push (a client retry)
@@ -348,28 +393,69 @@ func genHist(r *rand.Rand, id int) HCase {
 	}
 	n := 1 + r.Intn(8)
 	faulty := r.Intn(3) != 0
+	overlap := r.Intn(3) == 0 // requests whose bodies stay open while others are handled
+	nOpen := 0
+	used := map[string]bool{}
 	var last *Step
+	newStreams := func() []Stream {
+		var ss []Stream
+		k := 1 + r.Intn(3)
+		for j := 0; j < k; j++ {
+			ss = append(ss, genStream(r, pref))
+		}
+		return ss
+	}
 	for i := 0; i < n; i++ {
 		ok := func(p int) bool { return !faulty || r.Intn(100) < p }
-		switch x := r.Intn(20); {
+		x := r.Intn(20)
+		switch {
 		case x < 3:
 			c.Steps = append(c.Steps, Step{K: "reset"})
 		case x < 7 && last != nil:
 			st := Step{K: "push", Streams: last.Streams, TsOK: ok(85), SplOK: ok(90), Retry: true}
 			c.Steps = append(c.Steps, st)
-		default:
-			st := Step{K: "push", TsOK: ok(70), SplOK: ok(88)}
-			k := 1 + r.Intn(3)
-			for j := 0; j < k; j++ {
-				st.Streams = append(st.Streams, genStream(r, pref))
+		case x < 9 && faulty:
+			// a body that is malformed after some streams, often followed by the corrected body
+			st := Step{K: "bad", Streams: newStreams(), TsOK: true, SplOK: true}
+			c.Steps = append(c.Steps, st)
+			last = &c.Steps[len(c.Steps)-1]
+		case x < 13 && overlap && nOpen < 3:
+			st := Step{K: "begin", Streams: newStreams(), TsOK: true, SplOK: true}
+			if last != nil && r.Intn(2) == 0 {
+				st.Streams = last.Streams
 			}
 			c.Steps = append(c.Steps, st)
 			last = &c.Steps[len(c.Steps)-1]
+			nOpen++
+		case x < 17 && nOpen > 0:
+			k := r.Intn(nOpen)
+			if faulty && r.Intn(3) == 0 {
+				c.Steps = append(c.Steps, Step{K: "abort", Idx: k, TsOK: true, SplOK: true})
+			} else {
+				c.Steps = append(c.Steps, Step{K: "end", Idx: k, TsOK: ok(70), SplOK: ok(88)})
+			}
+			nOpen--
+		default:
+			st := Step{K: "push", TsOK: ok(70), SplOK: ok(88), Streams: newStreams()}
+			c.Steps = append(c.Steps, st)
+			last = &c.Steps[len(c.Steps)-1]
 		}
+		used[c.Steps[len(c.Steps)-1].K] = true
+	}
+	// complete what is still open, in random order
+	for nOpen > 0 {
+		c.Steps = append(c.Steps, Step{K: "end", Idx: r.Intn(nOpen), TsOK: !faulty || r.Intn(100) < 70, SplOK: !faulty || r.Intn(100) < 88})
+		nOpen--
 	}
 	switch {
+	case used["begin"] && faulty:
+		c.Class = "overlap+faults"
+	case used["begin"]:
+		c.Class = "overlap"
 	case !faulty:
 		c.Class = "no-faults"
+	case used["bad"]:
+		c.Class = "faults+bad-body"
 	default:
 		c.Class = "faults"
 	}
@@ -399,25 +485,57 @@ func bodyOf(st Step) string {
 	return `{"streams":[` + strings.Join(ss, ",") + `]}`
 }
 
+const badTail = `,{"stream":{"a":"b"},"values":[["12","l"],[`
+
 func runHistCase(r *mux.Router, c *HCase) {
 	time.Local = time.UTC
 	resetCache()
 	c.Obs = nil
+	var open []*flight
 	c.Panic = hx.Catch(func() {
 		for i := range c.Steps {
 			st := &c.Steps[i]
-			if st.K == "reset" {
-				resetCache()
-				c.Obs = append(c.Obs, StepObs{})
-				continue
-			}
 			for j := range st.Streams {
 				st.Streams[j].Fp = strconv.FormatUint(fpOf(labelsOf(st.Streams[j])), 10)
 			}
-			code, calls := push(r, bodyOf(*st), st.TsOK, st.SplOK)
-			c.Obs = append(c.Obs, StepObs{Status: code, Calls: calls})
+			switch st.K {
+			case "reset":
+				resetCache()
+				c.Obs = append(c.Obs, StepObs{})
+			case "push":
+				code, calls := push(r, bodyOf(*st), st.TsOK, st.SplOK)
+				c.Obs = append(c.Obs, StepObs{Status: code, Calls: calls})
+			case "bad":
+				code, calls := push(r, strings.TrimSuffix(bodyOf(*st), "]}")+badTail, true, true)
+				c.Obs = append(c.Obs, StepObs{Status: code, Calls: calls})
+			case "begin":
+				code, calls := collect(true, true, func() int { open = append(open, begin(r, *st)); return 400 })
+				c.Obs = append(c.Obs, StepObs{Status: 0, Calls: calls})
+				_ = code
+			case "end", "abort":
+				if st.Idx >= len(open) {
+					c.Obs = append(c.Obs, StepObs{Status: -1})
+					continue
+				}
+				f := open[st.Idx]
+				open = append(open[:st.Idx:st.Idx], open[st.Idx+1:]...)
+				var code int
+				var calls []Call
+				if st.K == "end" {
+					code, calls = f.finish("]}", st.TsOK, st.SplOK)
+				} else {
+					code, calls = f.finish(badTail, true, true)
+				}
+				c.Obs = append(c.Obs, StepObs{Status: code, Calls: calls})
+			default:
+				panic("unknown step kind " + st.K)
+			}
 		}
 	})
+	for _, f := range open {
+		f.pw.CloseWithError(io.ErrUnexpectedEOF)
+		<-f.code
+	}
 }
 
 func runHist(f *hx.Flags, out *hx.Out) {
